@@ -14,7 +14,21 @@ from cascade.low.builders import JobBuilder, TaskBuilder  # noqa: E402
 from cascade.low.func import Either  # noqa: E402
 from vf.palette_callables import CALLABLES  # noqa: E402
 
+import collections  # noqa: E402
+import dataclasses  # noqa: E402
+
+
+@dataclasses.dataclass
+class Cfg:
+    level: int
+    name: str
+
+
+Pt = collections.namedtuple("Pt", ["x", "y"])
+# quick shards use the first two or three; the structured values (a dataclass instance, a named tuple, an ordered dict) are bound in the
+# dedicated `structured` shards: the job must carry the very objects, not flattened copies
 VALUES = [1, "v", True, None, 2.5]
+STRUCTURED = [Cfg(3, "c"), Pt(1, 2), collections.OrderedDict(b=1, a=2)]
 TYPES = {"int": int, "str": str, "bool": bool}
 
 
@@ -52,6 +66,7 @@ class Builder(Harness):
                     out.append({"tasks": [a, b], "edges": 1, "maxpos": 0, "nokw": True})
                     if a == b:
                         out.append({"tasks": [a, b], "edges": 0, "maxpos": 2, "nvalues": 2, "nokw": True, "rebind": True})
+                        out.append({"tasks": [a, b], "edges": 0, "maxpos": 1, "structured": True})
                     if a <= b:
                         base = {"tasks": [a, b], "edges": 0, "maxpos": 2 if a == b else 1, "nvalues": 3}
                         if a == b:
@@ -88,7 +103,7 @@ class Builder(Harness):
                     raise Violation(f"from_callable-raised-{type(e).__name__}", f"{f.__name__}: {e}")
                 kwparams = [p for p in sig.parameters.values() if p.kind in (p.KEYWORD_ONLY, p.POSITIONAL_OR_KEYWORD)]
                 ps, kw = [], {}
-                vals = VALUES[: params.get("nvalues", len(VALUES))]
+                vals = STRUCTURED if params.get("structured") else VALUES[: params.get("nvalues", len(VALUES))]
                 npos = ch.pick(params.get("maxpos", 2) + 1, f"npos{i}")
                 for k in range(npos):
                     ps.append(ch.choose(vals, f"ps{i}_{k}"))
@@ -193,10 +208,10 @@ class Builder(Harness):
                 for i, nm in enumerate(names):
                     t = job.tasks[nm]
                     want_ps = {str(k): v for k, v in enumerate(bound_ps[i])}
-                    if dict(t.static_input_ps) != want_ps:
+                    if dict(t.static_input_ps) != want_ps or any(type(t.static_input_ps[k]) is not type(v) for k, v in want_ps.items() if k in t.static_input_ps):
                         raise Violation("positional-values-misplaced", f"{nm}: {dict(t.static_input_ps)} vs {want_ps}")
                     for k, v in bound_kw[i].items():
-                        if k not in t.static_input_kw or t.static_input_kw[k] is not v and t.static_input_kw[k] != v:
+                        if k not in t.static_input_kw or (t.static_input_kw[k] is not v and t.static_input_kw[k] != v) or type(t.static_input_kw[k]) is not type(v):
                             raise Violation("keyword-value-lost", f"{nm}.{k}")
             # persistence: what was built before is untouched, and the old builder still builds the same job
             if snapshot is not None:
